@@ -53,6 +53,9 @@ MUTANTS = [
     ("vt.contracts.einsum_eq", "get_einsum_eq", "cotengra/core.py", "            for i, ix in enumerate(unique(itertools.chain(l_inds, r_inds)))\n        }", "            for i, ix in enumerate(unique(itertools.chain(l_inds, r_inds)))\n            if not ix.isascii()\n        }"),
     ("vt.contracts.einsum_eq", "get_einsum_eq", "cotengra/core.py", "enumerate(unique(itertools.chain(l_inds, r_inds)))", "enumerate(unique(l_inds))"),
     ("vt.contracts.einsum_eq", "get_einsum_eq", "cotengra/core.py", "ord(ix): get_symbol(i)", "ord(ix): get_symbol(i % 52)"),
+    ("vt.contracts.hypergraph_ops", "HyperGraph.contract", "cotengra/hypergraph.py", "            if (ind in self.edges) or (ind in self.output)", "            if (ind in self.edges) and (ind in self.output)"),
+    ("vt.contracts.hypergraph_ops", "remove_node", "cotengra/hypergraph.py", "            if not e_nodes:\n                del self.edges[e]", "            if not e_nodes:\n                pass"),
+    ("vt.contracts.hypergraph_ops", "add_node", "cotengra/hypergraph.py", "                self.edges[e] += (node,)", "                self.edges[e] = (node,)"),
     ("vt.contracts.traversal", "_traverse_ordered", "cotengra/core.py", "                            ci = bisect(scores[:i], score)", "                            ci = bisect(scores[: i + 1], score)"),
     ("vt.contracts.traversal", "_traverse_dfs", "cotengra/core.py", "            if (l in ready) and (r in ready):", "            if (l in ready) or (r in ready):"),
     ("vt.contracts.core_inds", "get_inds", "cotengra/core.py", "            unique(filter(legs.__contains__, itertools.chain(l_inds, r_inds)))", "            filter(legs.__contains__, itertools.chain(l_inds, r_inds))"),
